@@ -139,7 +139,9 @@ def exposures(tr, market, phase, rng=None):
     for st in tr.framework.strategies:
         if st.name == "__audit__":
             continue
-        orders = list(b._strategy_orders.get(st, []))
+        # the strategy's orders: those that were filed in this blotter (hook on the blotter) whose trade belongs to this very
+        # strategy object - not the blotter's own per-strategy index, which is part of what is being checked
+        orders = [o for o in tr.shadow.get(market.market_id, []) if o.trade.strategy is st]
         if not orders:
             continue
         by_sel = {}
